@@ -222,6 +222,10 @@ jobs = []
 for h in hists:
     for sn in ('tagged', 'untagged'):
         jobs.append(dict(id=len(jobs), hist=h, shape=SHAPES[sn], max_subset=subset, shape_name=sn))
+# the stream engine carries its own copy of the protocol (tstable.go / flusher.go / gc.go / merger.go): the same
+# histories on a bare stream tsTable (harness/export/banyand/stream/zz_verif_export_crash.go)
+for h in (hists[:2] if c.quick else hists[:4]):
+    jobs.append(dict(id=len(jobs), hist=h, shape=dict(SHAPES['tagged'], engine='stream'), max_subset=subset, shape_name='stream'))
 with ThreadPoolExecutor(max_workers=4) as ex:
     results = list(ex.map(harness, jobs))
 stats = {}
@@ -243,6 +247,11 @@ c.log('real code: %d histories x shapes, %d syscalls = %d crash points, %d image
 # code -> spec: every recorded syscall log must be a behaviour of the protocol spec; the oracle must equal the harness' bookkeeping
 def val(i):
     return validate('c04t%d' % i, results[i]['trace'], jobs[i]['shape']['tagged'])
+# (TSTableCrashTrace.tla follows the measure engine's file order inside a part directory - tag.type is written at another
+#  point by the stream engine -, so the stream histories are decided by the fault enumeration only, not trace-validated)
+njobs_all = len(jobs)
+stream_jobs = [j for j in jobs if j['shape'].get('engine') == 'stream']
+jobs = [j for j in jobs if j['shape'].get('engine') != 'stream']
 with ThreadPoolExecutor(max_workers=4) as ex:
     vals = list(ex.map(val, range(len(jobs))))
 traces_ok = 0
@@ -319,7 +328,7 @@ if traces_ok:
 seen = {}
 for i, r in enumerate(results):
     for v in r['violations']:
-        seen.setdefault(v['signature'], (v, jobs[i]))
+        seen.setdefault(v['signature'], (v, (jobs + stream_jobs)[i]))
 reproduced = 0
 for sig, (v, job) in sorted(seen.items()):
     ro = replay_obj(v, job)
@@ -351,7 +360,7 @@ c.cov.update(
          'through the engine block readers; images are built at EVERY index of the syscall log of each history (kill -9 image; half-done write; part-way RemoveAll; '
          'power loss: all un-synced effects lost / all kept with un-synced data lost or torn / each single effect lost / each single effect kept / every subset when '
          '<= %d effects are pending); non-trivial = un-synced effects were pending at the crash point or the image is not the plain kill -9 one' % subset,
-    histories=[j['hist'] for j in jobs[::2]], shapes=SHAPES, harness_stats=stats, design_runs=design_runs, action_coverage=action_cov,
+    histories=[j['hist'] for j in jobs[::2]], stream_engine_histories=[j['hist'] for j in stream_jobs], shapes=SHAPES, harness_stats=stats, design_runs=design_runs, action_coverage=action_cov,
     hypotheses_from_pinned_protocol=hypotheses, violations_reproduced=reproduced, binding_selftest_rejected=all(selftest.values()) if selftest else False,
     binding_selftests=selftest, exhaustive=True, write_protocol_variant_observed=VARIANT, observations={'stale_older_manifest_kept_after_recovery': stats.get('observation_stale_manifest_kept', 0)},
     samples=samples)
